@@ -16,7 +16,8 @@ RULE = ("Occupation lists (0-8 modes, 0-5 photons per mode, ints only), two furt
         "concatenates, merge adds mode-wise, slicing returns State, counts consistent, setters raise), no value "
         "obtained through the API aliases internal storage, herald insert-then-remove is the identity and inserted "
         "values sit at the herald modes, unit conversions invert each other, seeded random unitaries / "
-        "permutations are valid and reproducible. Non-trivial = >= 2 modes and >= 1 photon, or a herald dict with "
+        "permutations are valid and reproducible - also after the caller has overwritten an earlier result in place. "
+        "Non-trivial = >= 2 modes and >= 1 photon, or a herald dict with "
         ">= 2 keys not in ascending order; distinct = case JSON.")
 ASSUMPTIONS = ["State(list) keeps the caller's list object; mutating that list is outside 'through the API'",
                "occupations are Python ints (no bools / floats)"]
